@@ -21,6 +21,7 @@
 (*   func:N body text    alias:N replacement    opt:N "on"                 *)
 (*   pos:# number of positional parameters, pos:1 pos:2 their values       *)
 (*   trap:C "ignore" | "cmd:<text>"     disp:S "ignore" | "catch"          *)
+(*   pend:S "1" the signal was caught, its trap action has not run yet     *)
 (*   cwd, umask                                                            *)
 (*   fd:N  identity of the open file description, fdx:N "1" close-on-exec  *)
 (* E (shell execution environment) and K[p] (per-process kernel state) of  *)
@@ -33,6 +34,7 @@ EXTENDS Naturals, Sequences, FiniteSets, TLC, Json
 
 CONSTANTS Alphabet,   \* set of mutator command texts used by the generator
           Kinds,      \* subset of {"Paren","CmdSubst","Pipe","Async"}
+          Ctxs,       \* subset of {"main","trap"}: where the construct is executed
           MaxPre, MaxChild, MaxPost, MaxTotal,
           MinPre,     \* the fork may happen only after at least this many prelude mutators
           MinTotal,   \* a scenario may end early only with at least this many mutators
@@ -42,15 +44,16 @@ CONSTANTS Alphabet,   \* set of mutator command texts used by the generator
 -----------------------------------------------------------------------------
 (* keys *)
 Vars   == {"a", "b"}
-Conds  == {"INT", "QUIT", "TERM", "EXIT"}
-Sigs   == {"INT", "QUIT", "TERM"}
+Conds  == {"INT", "QUIT", "TERM", "USR1", "USR2", "CHLD", "EXIT"}
+Sigs   == {"INT", "QUIT", "TERM", "USR1", "USR2"}   \* conditions whose kernel disposition is observed
 FdNums == {"0", "1", "2", "3", "4"}
 FdKeys == {"fd:" \o n : n \in FdNums}
 
 EKeys == {"val:a", "exp:a", "ro:a", "val:b", "exp:b", "ro:b", "val:PWD", "val:OLDPWD",
           "func:f", "alias:al", "opt:glob", "opt:clobber", "pos:#", "pos:1", "pos:2",
-          "trap:INT", "trap:QUIT", "trap:TERM", "trap:EXIT"}
-KKeys == {"cwd", "umask", "disp:INT", "disp:QUIT", "disp:TERM",
+          "trap:INT", "trap:QUIT", "trap:TERM", "trap:USR1", "trap:USR2", "trap:CHLD", "trap:EXIT",
+          "pend:USR1"}
+KKeys == {"cwd", "umask", "disp:INT", "disp:QUIT", "disp:TERM", "disp:USR1", "disp:USR2",
           "fd:0", "fd:1", "fd:2", "fd:3", "fd:4", "fdx:3", "fdx:4"}
 MK    == EKeys \cup KKeys
 
@@ -116,6 +119,9 @@ Sem(c) ==
     [] c = "trap - TERM"         -> [op |-> "trap",    c |-> "TERM", a |-> "-"]
     [] c = "trap 'probe e' EXIT" -> [op |-> "trap",    c |-> "EXIT", a |-> "cmd:probe e"]
     [] c = "trap - EXIT"         -> [op |-> "trap",    c |-> "EXIT", a |-> "-"]
+    [] c = "trap 'probe c' CHLD" -> [op |-> "trap",    c |-> "CHLD", a |-> "cmd:probe c"]
+    [] c = "trap - CHLD"         -> [op |-> "trap",    c |-> "CHLD", a |-> "-"]
+    [] c = "status 0 & wait"     -> [op |-> "gchild"]   \* a child of this process exits: SIGCHLD
     [] c = "exec 3>>/tmp/f3"     -> [op |-> "open",    fd |-> "3"]
     [] c = "exec 4</tmp/in"      -> [op |-> "open",    fd |-> "4"]
     [] c = "exec 3>&-"           -> [op |-> "close",   fd |-> "3"]
@@ -131,7 +137,7 @@ AllCmds ==
    "cd /tmp", "cd /home", "umask 027", "umask 077",
    "trap 'probe t' INT", "trap '' INT", "trap - INT",
    "trap 'probe u' TERM", "trap '' TERM", "trap - TERM",
-   "trap 'probe e' EXIT", "trap - EXIT",
+   "trap 'probe e' EXIT", "trap - EXIT", "trap 'probe c' CHLD", "trap - CHLD", "status 0 & wait",
    "exec 3>>/tmp/f3", "exec 4</tmp/in", "exec 3>&-", "exec 4>&3", "exec 4>&-"}
 
 (* one representative per mutator class of the property's list *)
@@ -139,9 +145,13 @@ CoreCmds ==
   {"a=1", "unset a", "export a", "readonly b", "f() { probe f1; }", "unset -f f",
    "alias al=one", "unalias -a", "set -o noglob", "shift", "set -- r",
    "cd /tmp", "umask 027", "trap 'probe t' INT", "trap '' TERM", "trap 'probe e' EXIT",
+   "trap 'probe c' CHLD", "status 0 & wait",
    "exec 3>>/tmp/f3", "exec 3>&-", "exec 4>&3"}
 
 AllKinds == {"Paren", "CmdSubst", "Pipe", "Async"}
+MainCtx  == {"main"}
+TrapCtx  == {"trap"}
+BothCtxs == {"main", "trap"}
 
 Roles(kind) ==
   CASE kind = "Paren"    -> <<"paren">>
@@ -194,7 +204,8 @@ Ap(c, S, fresh) ==
                                    "pos:2" :> (IF Len(s.ps) >= 2 THEN s.ps[2] ELSE "-"))
     [] s.op = "cd"       -> Upd(S, "cwd" :> s.d @@ "val:OLDPWD" :> S["val:PWD"] @@ "val:PWD" :> ("S" \o s.d))
     [] s.op = "umask"    -> Upd(S, "umask" :> s.m)
-    [] s.op = "trap"     -> IF s.c = "EXIT" THEN Upd(S, "trap:EXIT" :> s.a)
+    [] s.op = "gchild"   -> S
+    [] s.op = "trap"     -> IF s.c \in {"EXIT", "CHLD"} THEN Upd(S, ("trap:" \o s.c) :> s.a)
                             ELSE Upd(S, ("trap:" \o s.c) :> s.a @@ ("disp:" \o s.c) :> DispOf(s.a))
     [] s.op = "open"     -> Upd(S, ("fd:" \o s.fd) :> fresh @@ ("fdx:" \o s.fd) :> "-")
     [] s.op = "close"    -> Upd(S, ("fd:" \o s.fd) :> "-" @@ ("fdx:" \o s.fd) :> "-")
@@ -230,28 +241,58 @@ Plumb(role) ==
     [] role = "pipe_last"  -> ("fd:0" :> "n:pipe1R")
     [] role = "async"      -> ("fd:0" :> "n:devnull")
 
+(* fork(): "the set of signals pending for the child process shall be      *)
+(* initialized to the empty set" -- a signal the parent has caught but not  *)
+(* yet acted upon is the parent's business.                                 *)
 ForkImage(S, role) ==
   Upd(S, "trap:INT"  :> TrapImg(S, role, "INT")  @@ "trap:QUIT" :> TrapImg(S, role, "QUIT") @@
          "trap:TERM" :> TrapImg(S, role, "TERM") @@ "trap:EXIT" :> TrapImg(S, role, "EXIT") @@
+         "trap:USR1" :> TrapImg(S, role, "USR1") @@ "trap:USR2" :> TrapImg(S, role, "USR2") @@
+         "trap:CHLD" :> TrapImg(S, role, "CHLD") @@
          "disp:INT"  :> DispImg(S, role, "INT")  @@ "disp:QUIT" :> DispImg(S, role, "QUIT") @@
-         "disp:TERM" :> DispImg(S, role, "TERM") @@ Plumb(role))
+         "disp:TERM" :> DispImg(S, role, "TERM") @@
+         "disp:USR1" :> DispImg(S, role, "USR1") @@ "disp:USR2" :> DispImg(S, role, "USR2") @@
+         "pend:USR1" :> "-" @@ Plumb(role))
+
+(* Where the construct is executed.  "trap": from inside the action of a    *)
+(* SIGUSR2 trap, after SIGUSR1 -- which has a command trap, too -- has been *)
+(* caught: its action is pending (it runs when the USR2 action is over).    *)
+(* The harness renders this as                                              *)
+(*    trap 'probe s' USR1; trap '. /tmp/act' USR2; kill -s USR2 $$          *)
+(* with /tmp/act = kill -s USR1 $$; <before> <construct> <after>.           *)
+EnterCtx(S, x) ==
+  IF x = "trap"
+  THEN Upd(S, "trap:USR1" :> "cmd:probe s" @@ "disp:USR1" :> "catch" @@
+              "trap:USR2" :> "cmd:. /tmp/act" @@ "disp:USR2" :> "catch" @@ "pend:USR1" :> "1")
+  ELSE S
+
+(* Trap actions a process runs because of mutator c (executed in map S,     *)
+(* S2 afterwards): a pending caught signal's action runs at the next        *)
+(* command boundary; a terminating child raises SIGCHLD.                    *)
+IsCmd(a) == a \notin {"-", "ignore"}
+Triggered(c, S, S2) ==
+  (IF S["pend:USR1"] = "1" /\ IsCmd(S["trap:USR1"]) THEN {S["trap:USR1"]} ELSE {})
+  \cup (IF Sem(c).op = "gchild" /\ IsCmd(S2["trap:CHLD"]) THEN {S2["trap:CHLD"]} ELSE {})
+(* the actions a process installed itself *)
+OwnActs(seq) == {Sem(seq[i]).a : i \in {x \in 1..Len(seq) : Sem(seq[x]).op = "trap" /\ IsCmd(Sem(seq[x]).a)}}
 
 -----------------------------------------------------------------------------
 (* The scenario machine: parent prelude, fork of one construct, the         *)
 (* subshell(s) and -- for the concurrent kinds -- the parent and the        *)
 (* sibling running their mutators in every interleaving, join.              *)
-VARIABLES phase, kind, pre, chs, post,   \* the scenario (what the harness renders)
+VARIABLES phase, kind, ctx, pre, chs, post,   \* the scenario (what the harness renders)
           P,                             \* the parent's map
           P0,                            \* ... at the fork ("before")
-          C, C0                          \* the children's maps, now and on entry
-vars == <<phase, kind, pre, chs, post, P, P0, C, C0>>
+          C, C0,                         \* the children's maps, now and on entry
+          ran                            \* trap actions each child has run
+vars == <<phase, kind, ctx, pre, chs, post, P, P0, C, C0, ran>>
 
 RECURSIVE SumLen(_, _)
 SumLen(ss, i) == IF i > Len(ss) THEN 0 ELSE Len(ss[i]) + SumLen(ss, i + 1)
 Total == Len(pre) + SumLen(chs, 1) + Len(post)
 
-Init == /\ phase = "pre" /\ kind = "-" /\ pre = <<>> /\ chs = <<>> /\ post = <<>>
-        /\ P = InitMap /\ P0 = InitMap /\ C = <<>> /\ C0 = <<>>
+Init == /\ phase = "pre" /\ kind = "-" /\ ctx = "-" /\ pre = <<>> /\ chs = <<>> /\ post = <<>>
+        /\ P = InitMap /\ P0 = InitMap /\ C = <<>> /\ C0 = <<>> /\ ran = <<>>
 
 PreStep ==
   /\ phase = "pre" /\ Len(pre) < MaxPre /\ Total < MaxTotal
@@ -259,16 +300,18 @@ PreStep ==
        /\ En(c, P, "parent")
        /\ P' = Ap(c, P, Fresh("pre", Len(pre) + 1))
        /\ pre' = Append(pre, c)
-  /\ UNCHANGED <<phase, kind, chs, post, P0, C, C0>>
+  /\ UNCHANGED <<phase, kind, ctx, chs, post, P0, C, C0, ran>>
 
 Fork ==
   /\ phase = "pre" /\ (Len(pre) >= MinPre \/ Len(pre) = MaxPre)
-  /\ \E k \in Kinds :
-       /\ kind' = k
-       /\ C' = [j \in 1..Len(Roles(k)) |-> ForkImage(P, Roles(k)[j])]
+  /\ \E k \in Kinds, x \in Ctxs :
+       /\ kind' = k /\ ctx' = x
+       /\ P' = EnterCtx(P, x)
+       /\ C' = [j \in 1..Len(Roles(k)) |-> ForkImage(P', Roles(k)[j])]
        /\ chs' = [j \in 1..Len(Roles(k)) |-> <<>>]
-  /\ C0' = C' /\ P0' = P /\ phase' = "run"
-  /\ UNCHANGED <<pre, post, P>>
+       /\ ran' = [j \in 1..Len(Roles(k)) |-> {}]
+  /\ C0' = C' /\ P0' = P' /\ phase' = "run"
+  /\ UNCHANGED <<pre, post>>
 
 ChildStepOf(j) ==
   /\ phase = "run" /\ Len(chs[j]) < MaxChild /\ Total < MaxTotal
@@ -276,7 +319,8 @@ ChildStepOf(j) ==
        /\ En(c, C[j], Roles(kind)[j])
        /\ C' = [C EXCEPT ![j] = Ap(c, C[j], Fresh("c" \o ToString(j), Len(chs[j]) + 1))]
        /\ chs' = [chs EXCEPT ![j] = Append(@, c)]
-  /\ UNCHANGED <<phase, kind, pre, post, P, P0, C0>>
+       /\ ran' = [ran EXCEPT ![j] = @ \cup Triggered(c, C[j], C'[j])]
+  /\ UNCHANGED <<phase, kind, ctx, pre, post, P, P0, C0>>
 
 (* the parent goes on while an asynchronous list runs *)
 ParentStep ==
@@ -285,13 +329,13 @@ ParentStep ==
        /\ En(c, P, "parent")
        /\ P' = Ap(c, P, Fresh("post", Len(post) + 1))
        /\ post' = Append(post, c)
-  /\ UNCHANGED <<phase, kind, pre, chs, P0, C, C0>>
+  /\ UNCHANGED <<phase, kind, ctx, pre, chs, P0, C, C0, ran>>
 
 Saturated == /\ \A j \in 1..Len(chs) : Len(chs[j]) = MaxChild
              /\ kind = "Async" => Len(post) = MaxPost
 Finish == /\ phase = "run" /\ phase' = "done"
           /\ Total >= MinTotal \/ Total = MaxTotal \/ Saturated
-          /\ UNCHANGED <<kind, pre, chs, post, P, P0, C, C0>>
+          /\ UNCHANGED <<kind, ctx, pre, chs, post, P, P0, C, C0, ran>>
 
 (* NEGATIVE TEST ONLY: the child's variables are the parent's (a shared     *)
 (* reference instead of a copy).                                            *)
@@ -301,7 +345,7 @@ LeakStepOf(j) ==
   /\ C' = [C EXCEPT ![j] = Ap("a=2", C[j], "-")]
   /\ P' = Ap("a=2", P, "-")
   /\ chs' = [chs EXCEPT ![j] = Append(@, "a=2")]
-  /\ UNCHANGED <<phase, kind, pre, post, P0, C0>>
+  /\ UNCHANGED <<phase, kind, ctx, pre, post, P0, C0, ran>>
 
 ChildStep == \E j \in 1..Len(chs) : ChildStepOf(j)
 LeakStep  == \E j \in 1..Len(chs) : LeakStepOf(j)
@@ -334,6 +378,12 @@ TrapRule ==
         /\ (Roles(kind)[j] = "async" /\ c \in {"INT", "QUIT"}) => C0[j]["trap:" \o c] = "ignore"
         /\ (Roles(kind)[j] # "async" /\ P0["trap:" \o c] # "ignore") => C0[j]["trap:" \o c] = "-"
 
+(* BEHAVIOURALLY: the only trap actions a subshell ever runs are those it   *)
+(* installed itself -- never the parent's, whatever signal reaches it      *)
+(* (a pending one inherited across the fork, SIGCHLD of its own children). *)
+NoForeignTrapAction ==
+  \A j \in 1..Len(ran) : ran[j] \subseteq OwnActs(chs[j])
+
 (* descriptors: same numbers open; non-plumbed ones share the description *)
 SharedDescriptions ==
   phase \in {"run", "done"} =>
@@ -354,11 +404,12 @@ Final ==
 Delta(A, B) == [k \in {x \in MK : A[x] # B[x]} |-> B[k]]
 
 Scenario ==
-  [kind |-> kind, pre |-> pre, ch |-> chs, post |-> post,
+  [kind |-> kind, ctx |-> ctx, pre |-> pre, ch |-> chs, post |-> post,
    exp  |-> [before |-> Delta(InitMap, P0),
              entry  |-> [j \in 1..Len(C0) |-> Delta(P0, C0[j])],
              end    |-> [j \in 1..Len(C)  |-> Delta(C0[j], C[j])],
-             after  |-> Delta(P0, P)]]
+             after  |-> Delta(P0, P),
+             runs   |-> ran]]
 
 Emit == phase = "done" => PrintT(ToJson(Scenario))
 =============================================================================
